@@ -735,6 +735,47 @@ class Checker:
                    line=bad[2] if bad else None)
         rep.floor('R19.9', 'sendData implementations examined', n, 2)
 
+    # -------------------------------------------------------------- R19.10
+    def r1910(self):
+        """openAll / closeAll reach EVERY endpoint: the per-endpoint open / close call sits in the loop over the endpoint table and is
+        evaluated in every round - not in the right operand of `and` / `or`, an arm of a conditional expression, or under a test of what the
+        earlier endpoints returned (then one endpoint's result silently decides whether the others are opened)."""
+        rep = self.rep
+        rep.rule('R19.10', 'openAll / closeAll call openCom / closeCom on every endpoint unconditionally (one loop over the endpoint table, the call not short-circuited '
+                           'or guarded by earlier results)')
+        n = 0
+        for meth, want in (('openAll', 'openCom'), ('closeAll', 'closeCom')):
+            fi = self.comms.methods.get(meth)
+            if fi is None:
+                continue
+            loops = [l_ for l_ in walk_own(fi.node) if isinstance(l_, ast.For) and 'endpoints' in norm_text(l_.iter)]
+            calls = [c_ for l_ in loops for c_ in ast.walk(l_) if isinstance(c_, ast.Call) and isinstance(c_.func, ast.Attribute) and c_.func.attr == want]
+            rep.ob('R19.10', fi, '%s: %s() called inside a loop over the endpoint table' % (meth, want), bool(calls),
+                   '%s has no %s() call in a loop over self.endpoints' % (meth, want))
+            assigned = {t_.id for a_ in walk_own(fi.node) if isinstance(a_, (ast.Assign, ast.AugAssign)) for t0 in (a_.targets if isinstance(a_, ast.Assign) else [a_.target])
+                        for t_ in ast.walk(t0) if isinstance(t_, ast.Name)}
+            for c_ in calls:
+                n += 1
+                why = None
+                node, par = c_, fi.module.parents.get(c_)
+                while par is not None and par not in loops:
+                    if isinstance(par, ast.BoolOp) and node is not par.values[0]:
+                        why = 'the right operand of `%s`' % ('and' if isinstance(par.op, ast.And) else 'or')
+                    elif isinstance(par, ast.IfExp) and node is not par.test:
+                        why = 'an arm of a conditional expression'
+                    elif isinstance(par, ast.If) and node not in ([par.test] + list(ast.walk(par.test))) and \
+                            any(isinstance(x_, ast.Name) and x_.id in assigned for x_ in ast.walk(par.test)):
+                        why = 'a branch taken depending on `%s`' % norm_text(par.test)[:40]
+                    elif isinstance(par, (ast.Try,)) and node in [x_ for h_ in par.handlers for x_ in ast.walk(h_)]:
+                        why = 'an exception handler'
+                    if why:
+                        break
+                    node, par = par, fi.module.parents.get(par)
+                rep.ob('R19.10', fi, '%s: %s evaluated in every round' % (meth, norm_text(c_)[:50]), why is None,
+                       '%s() sits in %s: once an earlier endpoint makes that skip it, the remaining endpoints are silently left %s - messages forwarded to them are dropped, '
+                       'their sources are not sent, receives on them yield nothing' % (want, why, 'closed' if want == 'openCom' else 'open'), line=c_.lineno)
+        rep.floor('R19.10', 'per-endpoint open / close calls', n, 2)
+
     def _table_refs(self, t):
         """tables written by storing to / mutating expression t (any receiver whose attribute is a table name,
         restricted to receivers that can be a Comms: `self` inside Comms, or any non-self receiver)."""
@@ -761,3 +802,4 @@ def check(model, rep):
     ck.r197()
     ck.r198()
     ck.r199()
+    ck.r1910()
